@@ -89,6 +89,23 @@ def set_logging(mode: str) -> None:
     LOG_MODE = mode
 
 
+AMBIENT = {"lowprec": False, "dst_zone": False}
+
+
+def set_ambient(lowprec: bool, dst_zone: bool) -> None:
+    """Process-wide settings an embedding application may legitimately have changed: the precision of the thread's decimal
+    context (28 by default, 6 here) and the time zone of the process (UTC, or a zone with daylight saving time)."""
+    import decimal
+    import time as _t
+
+    decimal.getcontext().prec = 6 if lowprec else 28
+    want = "CET-1CEST,M3.5.0,M10.5.0/3" if dst_zone else "UTC"
+    if os.environ.get("TZ") != want:
+        os.environ["TZ"] = want
+        _t.tzset()
+    AMBIENT["lowprec"], AMBIENT["dst_zone"] = lowprec, dst_zone
+
+
 def hx(b) -> str:
     return bytes(b).hex()
 
